@@ -153,8 +153,9 @@ func (g *evGen) session(supi, nf string) *genSess {
 		usages = append(usages, g.usage(nil, g.r.pick(1, 2), true))
 	}
 	fmt.Fprintf(g.w, "chf create %s\n", fmtReq(supi, nf, 100+len(g.sess), 0, 1, 0, nil, usages))
-	if strings.Contains(nf, "/") {
-		// a name with a path separator opens no session (the reference could not be named): refused, no number is used up
+	if strings.Contains(nf, "/") || strings.ContainsFunc(nf, func(r rune) bool { return r < 0x20 || r == 0x7f }) {
+		// a name with a path separator or a control character opens no session (the reference could not be named / handed
+		// to the consumer): refused, no number is used up
 		g.done++
 		return nil
 	}
@@ -318,7 +319,9 @@ func genChfEvents(o genOpts, w *bufio.Writer) {
 var escapeNames = []string{"smf%41", "smfA", "smf%2541", "smf%", "%", "%%", "a%2Fb", "a%2fb", "a+b", "a b", "a%20b", "smf%25", "%41", "A",
 	"smf?x", "smf#1", "smf;v=1", "smf%zz", "smf%4", "é", "smf%C3%A9", "a%00", "100%", "%2E%2E", "a=b&c",
 	// a path separator in the name: a reference built from it could not be the last element of a resource URI
-	"a/b", "/", "smf/1", "a//b", "smf/"}
+	"a/b", "/", "smf/1", "a//b", "smf/",
+	// a control character in the name: the Location header could not carry the reference
+	"smf\n1", "smf\x01", "smf\x7f", "\r", "a\tb"}
 
 // every way of writing one octet of s as %XX (upper / lower case hex), at most n variants
 func percentVariants(s string, r *rng, n int) []string {
